@@ -26,10 +26,28 @@ rc2, o2 = sh(demo, cwd=src + '/SEED')
 ran.append('demo without change: exit %d' % rc2)
 sh('git stash pop -q', cwd=src)
 confirmed = rc1 != 0 and rc2 == 0
-# apply to /repo
-rc, o = sh('git -C /repo apply --check %s/patch.diff' % dst)
+# apply to /repo -- or, with SEED_FRAMEWORK=<another worktree of /verif>, run that worktree's checks against the seed's
+# own worktree (which has the change applied) so that neither /repo nor /verif/build is touched while other jobs use them
+FW = os.environ.get('SEED_FRAMEWORK')
 verdicts = {}
-if rc != 0:
+if FW:
+    for c in [PID] + others:
+        t = time.time()
+        rcc, oc = sh('VERIF_REPO=%s VERIF_EVIDENCE_DIR=%s/build/seed-evidence ./check %s quick' % (src, FW, c), cwd=FW, timeout=3000)
+        v = [l for l in oc.split('\n') if l.startswith('VIOLATION')]
+        last = [l for l in oc.split('\n') if l.strip() and not l.startswith('KNOWN')][-1:]
+        verdicts[c] = dict(exit=rcc, violation_line=(v[0] if v else None), summary=(last[0] if last else ''), wall_s=round(time.time() - t))
+        if v and 'replay=' in v[0]:
+            rp = v[0].split('replay=')[1].split()[0]
+            if os.path.exists(rp):
+                shutil.copy(rp, os.path.join(dst, 'replay-%s.txt' % c))
+        ran.append('./check %s quick (framework copy %s) against the seed worktree: exit %d %s' % (c, FW, rcc, v[0] if v else 'no VIOLATION'))
+    rc = 1; o = 'not applied to /repo (SEED_FRAMEWORK run)'
+else:
+    rc, o = sh('git -C /repo apply --check %s/patch.diff' % dst)
+if FW:
+    pass
+elif rc != 0:
     ran.append('patch does not apply to /repo HEAD: ' + o[:200])
 else:
     sh('git -C /repo apply %s/patch.diff' % dst)
